@@ -21,6 +21,21 @@ def probe_satan2():
     return rc == 0, out[-1500:]
 
 
+def probe_createvarn(size):
+    """Does `createVariable(int nVars, value, varPos)` of a statically sized class instantiate?"""
+    src = os.path.join(vlib.VERIF, "harness", "densead_probe_createvarn.cpp")
+    cmd = ["g++", "-std=c++17", "-fsyntax-only", f"-D{vlib.GUARD}", f"-DPROBE_SIZE={size}", "-I", vlib.REPO, "-I", vlib.OPM_BUILD,
+           "-I", os.path.join(vlib.OPM_BUILD, "include"), src]
+    rc, out, _ = vlib.run(cmd)
+    return rc == 0
+
+
+# Property-mode statements the unchanged tree violates (design.d/C16.md "Findings"); they are counted in
+# prop_stats (probe.*) and become FAIL lines when armed (after the code is fixed):
+ARM_GENERIC_ARITY = False         # Evaluation<T, n>::createConstant(n, c) of the primary template throws (guard `nVars != 0`)
+ARM_DYNAMIC_PREDICATES = False    # MathToolbox<DynamicEvaluation>::isnan/isfinite/isSame ignore the derivatives
+
+
 def run(ctx):
     ctx.assumptions += [
         "doubles cross the protocol as IEEE bit patterns; the comparison real code vs generated Lean definitions is bit-exact (tolerance 0 ulp), libm functions included (same libm in both processes)",
@@ -32,7 +47,12 @@ def run(ctx):
         return ctx.finish(trusted_base=TRUSTED)
     have_satan2, probe_out = probe_satan2()
     ctx.cov["probe_atan2_scalar_eval_compiles"] = have_satan2
-    ok, exe, out = vlib.build_harness("densead", extra_flags=FLAGS + (f"-DDENSEAD_HAVE_SATAN2={1 if have_satan2 else 0}",))
+    have_cvn_u, have_cvn_l = probe_createvarn(3), probe_createvarn(13)
+    ctx.cov["probe_createVariable_nVars_compiles"] = {"specialisation": have_cvn_u, "primary_template": have_cvn_l}
+    defs = (f"-DDENSEAD_HAVE_SATAN2={1 if have_satan2 else 0}", f"-DDENSEAD_HAVE_CREATEVARN_U={1 if have_cvn_u else 0}",
+            f"-DDENSEAD_HAVE_CREATEVARN_L={1 if have_cvn_l else 0}", f"-DDENSEAD_ARM_GENERIC_ARITY={1 if ARM_GENERIC_ARITY else 0}",
+            f"-DDENSEAD_ARM_DYNAMIC_PREDICATES={1 if ARM_DYNAMIC_PREDICATES else 0}")
+    ok, exe, out = vlib.build_harness("densead", extra_flags=FLAGS + defs)
     if not ok:
         ctx.tie_broken("harness", "densead harness does not compile: " + out[-2000:])
         return ctx.finish(trusted_base=TRUSTED)
@@ -46,7 +66,7 @@ def run(ctx):
         # the header-only classes again under ASan/UBSan (indeterminate reads, out-of-bounds slots,
         # FastSmallVector misuse): same generators at the quick size
         ok, exe_san, out = vlib.build_harness("densead", sanitize=True,
-                                              extra_flags=FLAGS + (f"-DDENSEAD_HAVE_SATAN2={1 if have_satan2 else 0}",))
+                                              extra_flags=FLAGS + defs)
         if not ok:
             ctx.tie_broken("harness", "densead sanitizer harness does not compile: " + out[-2000:])
         else:
